@@ -235,6 +235,8 @@ class CodecInterp(Interp):
         self.script = None
         self.short_at = None
         self.depth = {'pack': 0, 'unpack': 0}
+        self.apply_module_decorators = True
+        self.steps = 0
         env = self.module_env(F)
         import io
         import sys
@@ -868,3 +870,49 @@ def loads_value(repo, data):
         raise AnalysisError('loads is outside the interpretable subset: %s' % e)
     finally:
         it.concrete = False
+
+
+def state_restoration(repo):
+    """The module-level state of the codec (every int / bool / str / None variable and the size of every container of
+    supp/umsgpack.py) before and after calls that fail part-way inside nested containers: it must be unchanged, whatever the
+    call did - a later call must not see traces of an earlier one.  -> (ok, detail, n_calls)"""
+    it = repo.memo('codec-interp', lambda: CodecInterp(repo))
+    it.env['compatibility'] = False
+    it.short_at = None
+
+    def snap():
+        out = {}
+        for k, v in it.env.items():
+            if isinstance(v, (bool, int, float, str, bytes, type(None))):
+                out[k] = v
+            elif isinstance(v, (list, dict, set, tuple)):
+                out[k] = ('size', len(v))
+        return out
+    before = snap()
+    unsupported = Obj(next(c for c in it.facts.classes.values() if c.name != 'Ext'), {}, 'an object')
+    calls = [('loads', b'\x92\x91'), ('loads', b'\x81\x01\x92\x01'), ('loads', b'\x91\x81\x91\xa2\x41'), ('loads', b'\x91\xa1\xff'),
+             ('loads', b'\x82\x01\x01\x01\x02'), ('loads', b'\x91\xc1'), ('dumps', [1, [2, {3: unsupported}]]), ('loads', b'\x92\x01\x02'),
+             ('dumps', [1, {2: [3]}])]
+    diffs = []
+    it.concrete = True
+    try:
+        for fn, arg in calls:
+            it.reset_path([])
+            try:
+                it.call(it.env.get(fn), [arg], {})
+                outcome = 'returns'
+            except InterpRaise as e:
+                outcome = 'raises ' + e.exc_name
+            except Uninterpretable as e:
+                raise AnalysisError('%s is outside the interpretable subset: %s' % (fn, e))
+            after = snap()
+            changed = sorted(k for k in set(before) | set(after) if before.get(k) != after.get(k))
+            if changed:
+                diffs.append('%s(%r) %s and leaves %s' % (fn, arg if isinstance(arg, bytes) else '<nested value>', outcome,
+                                                          ', '.join('%s = %r (was %r)' % (k, after.get(k), before.get(k)) for k in changed)))
+                for k in changed:        # report each leak once
+                    if k in after:
+                        before[k] = after[k]
+    finally:
+        it.concrete = False
+    return not diffs, '; '.join(diffs[:3]), len(calls)
